@@ -2064,3 +2064,116 @@ def chain_inner_inv(ip, env):
 
 
 UNITS += [ChainUnit]
+
+
+# ---- product: delegation, for 0 .. 3 input iterables (the loop over the argument tuple is unrolled: the arity is a stated bound) ----
+
+
+class PyList:
+    def __init__(self):
+        self.items = []
+
+
+def _unroll_tuple_loop(spec, ip, s, env, f, ordinal):
+    it = ip.eval(s.iter, env, f.modpath)
+    if not isinstance(it, tuple):
+        raise Unsupported("for-loop over something that is not the argument tuple")
+    for x in it:
+        ip.assign(s.target, x, env, f)
+        ip.exec_block(s.body, env, f)
+
+
+class ProductUnit(DelegationUnit):
+    funcname = std_name = "product"
+    MAX_ARITY = 3
+
+    def __init__(self):
+        super().__init__()
+        self.globals["itertools"] = NS("itertools", {"product": Builtin("itertools.product", lambda ip, *pools, repeat=1: self.std_call(ip, "product", pools, repeat))})
+        self.globals["operator"] = NS("operator", {"index": Builtin("operator.index", lambda ip, v: v)})
+        self.globals["tuple"] = Builtin("tuple", lambda ip, x: x if isinstance(x, PoolVal) else lib.b_tuple(ip, x))
+
+    def make_args(self, ip):
+        st = ip.st
+        self.gen_entry(ip)
+        self.std = None
+        self.calls = []
+        self.arity = ip.ctx.decide(self.MAX_ARITY + 1, "number-of-iterables")
+        self.sources = []
+        h = H(st)
+        for i in range(self.arity):
+            r = Sym(z3.Int(f"iterable_{i}"), SRC)
+            d = h.dq(SRC.cls, r.t)
+            st.assume(z3.And(r.t > 0, st.allocated(r.t), d.lo <= d.hi, d.lo >= 0))
+            for prev in self.sources:
+                st.assume(prev[0].t != r.t)
+            self.sources.append((r, d.lo))
+        self.src = Sym(z3.IntVal(0), SRC)  # no single input
+        self.lo0 = self.hi0 = self.data0 = None
+        self.rep_given = ip.ctx.decide(2, "repeat-given") == 1
+        self.rep = Sym(z3.Int("repeat"), INT)
+        return [s for s, _ in self.sources], ({"repeat": self.rep} if self.rep_given else {})
+
+    def out_inv_common(self, h):
+        return z3.BoolVal(True)
+
+    def make_list(self, ip, elems):
+        if elems:
+            raise Unsupported("non-empty list literal")
+        return PyList()
+
+    def model_getattr(self, ip, obj, attr):
+        if isinstance(obj, PyList) and attr == "append":
+            return Builtin("list.append", lambda ip, x: obj.items.append(x))
+        return super().model_getattr(ip, obj, attr)
+
+    def unpack_star(self, ip, v):
+        if isinstance(v, PyList):
+            return list(v.items)
+        return NotImplemented
+
+    def list_comp(self, ip, e, env, mp):
+        ok = isinstance(e, _ast.ListComp) and len(e.generators) == 1 and e.generators[0].is_async and not e.generators[0].ifs and isinstance(e.elt, _ast.Name) and isinstance(e.generators[0].target, _ast.Name) and e.elt.id == e.generators[0].target.id
+        if not ok:
+            raise Unsupported("a comprehension other than [e async for e in <iterable>]")
+        it = ip.eval(e.generators[0].iter, env, mp)
+        which = [i for i, (s_, _) in enumerate(self.sources) if isinstance(it, Sym) and it.ty is SRC and it.t.eq(s_.t)]
+        if not which:
+            raise Unsupported("comprehension over something that is not an input")
+        st, cn = ip.st, SRC.cls
+        complete = st.get(cn, "lo", it.t) == self.sources[which[0]][1]
+        st.put(cn, "lo", it.t, st.get(cn, "hi", it.t))
+        lib.suspend(ip, "comprehension", None)
+        p = PoolVal(complete)
+        p.which = which[0]
+        return p
+
+    def loop_spec(self, qualname, ordinal):
+        if ordinal == 0:
+            return LoopSpec(lambda ip, env: [], modifies=None, exec_for=_unroll_tuple_loop)
+        return LoopSpec(relay_inv, modifies={("GenOut", "out"), ("GenOut", "n"), ("GenOut", "pos")}, local_types={})
+
+    def on_exit(self, ip, pre, exc, ret):
+        h = H(ip.st)
+        nm = "product"
+        j = z3.Int(ip.st.uniq("j"))
+        rep = self.rep.t if self.rep_given else z3.IntVal(1)
+        if exc is not None:
+            name = exc.pycls.__name__ if exc.pycls is not None else "sym"
+            if name == "CancelledError":
+                return
+            if getattr(self, "std_exc", None) is exc:
+                return
+            ip.ctx.oblige(f"{nm}/post:its_own_ValueError_only_for_a_negative_repeat", z3.And(z3.BoolVal(name == "ValueError" and not self.calls), rep < 0), "post")
+            return
+        ok = len(self.calls) == 1 and self.calls[0][0] == "product"
+        pools = list(self.calls[0][1]) if ok else []
+        shape = ok and len(pools) == self.arity and all(isinstance(p, PoolVal) and p.which == i for i, p in enumerate(pools))
+        ip.ctx.oblige(f"{nm}/post:delegates_once_to_the_stdlib_product_with_one_pool_per_input_in_order", z3.BoolVal(bool(shape)), "post")
+        if not shape:
+            return
+        ip.ctx.oblige(f"{nm}/post:every_pool_is_its_whole_input_and_repeat_is_the_callers", z3.And(rep >= 0, ip.term(self.calls[0][2], INT) == rep, *[p.complete for p in pools]), "post")
+        ip.ctx.oblige(f"{nm}/post:relays_every_element_of_the_stdlib_iterator_once_in_order", z3.And(out_n(h) == self.std_hi0 - self.std_lo0, forall([j], z3.Implies(z3.And(0 <= j, j < out_n(h)), out_at(h, j) == z3.Select(self.std_data0, self.std_lo0 + j)), patterns=[out_at(h, j)])), "post")
+
+
+UNITS += [ProductUnit]
